@@ -5,21 +5,28 @@ import Glom.Model.C04Env
   C04 driver: one JSON case in, one JSON verdict out.
 
   case:
-    "classes":  [{"name":n,"base":b,"shape":Shape|null,"falsy":bool}…]   user classes (base: user / builtin / glom class)
-    "exc":      {"cls":n,"init":[AVal…],"kw":bool,"set_args":[AVal…]|null}  the prepared exception object
-    "spec":     Sp      "ok"|"fault"|"badPath"|"badMatch"|{"tup":[…]}|{"dct":[…]}|{"lst":Sp}|{"frame":Sp}|{"first":Sp}
-                        |{"coal":[…],"skip":[names]|null,"dflt":bool}
+    "classes":  [{"name":n,"bases":[b…] (or "base":b),"shape":Shape|null,"falsy":bool,
+                  "copy":"args"|"init"|"self"|"foreign","sealed":bool,"frozen":bool}…]   user classes
+    "exc":      {"cls":n,"init":[AVal…],"kw":bool,"set_args":[AVal…]|null,"raise_class":bool,"cause":bool,"context":bool}
+    "spec":     Sp      "ok"|"fault"|{"fault":kind}|"badPath"|"badMatch"|{"tup":[…]}|{"dct":[…]}|{"lst":Sp}
+                        |{"frame":Sp,"kind":…}|{"first":Sp,"kind":…}|{"coal":[…],"skip":[names]|null,"dflt":bool}
+                        |{"nest":Sp,"settings":Settings,"entry":…}
+                kind: fn|call|invoke|tcall|factory (user code called by glom)  |  skipfunc (the `skip=` predicate of a Coalesce,
+                      called inside its try)  |  next (`__next__` of the target)
+                      |  iter|reg_iter|getitem|getattr|path|reg_get (inside one of glom's try blocks)
     "settings": {"default":bool,"skip":[names]|null,"debug":bool|null}
+    "entry":    glom|spec|glommer   (which entry point; same model)
     "recorder": bool    the whole spec is wrapped in a recording frame
-    "impl":     {"ctor_error":true}
+    "impl":     {"ctor_error":true} | {"class_error":true}
               | {"orig":{"mro":[…],"args":[…],"rebuild":[…]|null,"falsy":b},
-                 "origin": null | "unknown" | {"injected":true} | {"internal":cls,"args":[…]},
+                 "origin": null | "unknown" | {"isInj":b,"mro":[…],"args":[…]},
                  "obs": {"returned":"value"|"default"|"none"}
-                      | {"raised":{"mro":[…],"args":[…],"sameInj":b,"instInj":b,"sameRec":b,"instRec":b,"instGlom":b}}}
-                        (Inj: relative to the prepared object; Rec: relative to what the recording frame saw)
-  AVal: null | {"i":n} | {"s":str} | {"y":hex} | {"o":id}
-  Shape: {"sig":[lo, hi|null, kwReq, Store]} | "oserror" | "unicode"
-  Store: "all" | "nosuper" | {"pre":k} | "len" | {"const":s} | "rev" | "tme"
+                      | {"raised":{"mro":[…],"args":[…],"instGlom":b,"inj":Rel,"rec":Rel?}}}
+                 Rel = {"same":b,"inst":b,"cause":b,"context":b,"reach":b}   relative to the prepared object (inj) /
+                       to what the recording frame saw (rec)
+  AVal: null | {"i":n} | {"s":str} | {"y":hex} | {"o":id} | {"x":id}
+  Shape: {"sig":[lo, hi|null, kwReq, Store]}
+  Store: "all" | "nosuper" | {"pre":k} | "len" | {"const":s} | "rev" | "tme" | "needint"
 -/
 namespace Glom.C04.Driver
 open Lean Glom Glom.C04
@@ -37,6 +44,7 @@ def avalOfJson (j : Json) : Except String AVal :=
     else if let .ok s := j.getObjValAs? String "s" then .ok (.str s)
     else if let .ok s := j.getObjValAs? String "y" then .ok (.bytes s)
     else if let .ok n := j.getObjValAs? Nat "o" then .ok (.obj n)
+    else if let .ok n := j.getObjValAs? Nat "x" then .ok (.excs n)
     else .error s!"bad AVal {j.compress}"
 
 def avalToJson : AVal → Json
@@ -45,6 +53,7 @@ def avalToJson : AVal → Json
   | .str s => Json.mkObj [("s", s)]
   | .bytes s => Json.mkObj [("y", s)]
   | .obj n => Json.mkObj [("o", n)]
+  | .excs n => Json.mkObj [("x", n)]
 
 def argsOfJson (j : Json) : Except String Args := do (← arr j).mapM avalOfJson
 def argsToJson (a : Args) : Json := Json.arr (a.map avalToJson).toArray
@@ -57,81 +66,93 @@ def storeOfJson (j : Json) : Except String Store :=
   | .str "len" => .ok .len
   | .str "rev" => .ok .rev
   | .str "tme" => .ok .tme
+  | .str "needint" => .ok .needInt
   | _ =>
     if let .ok k := j.getObjValAs? Nat "pre" then .ok (.pre k)
     else if let .ok s := j.getObjValAs? String "const" then .ok (.const s)
     else .error s!"bad Store {j.compress}"
 
-def shapeOfJson (j : Json) : Except String Shape :=
-  match j with
-  | .str "oserror" => .ok .oserror
-  | .str "unicode" => .ok .unicodeDecode
-  | _ => do
-    match ← arr (← j.getObjVal? "sig") with
-    | [lo, hi, kw, st] =>
-      let lo ← lo.getNat?
-      let hi ← (match hi with | .null => pure none | h => do return some (← h.getNat?))
-      let kw ← kw.getBool?
-      return .sig lo hi kw (← storeOfJson st)
-    | _ => throw s!"bad Shape {j.compress}"
+def shapeOfJson (j : Json) : Except String Shape := do
+  match ← arr (← j.getObjVal? "sig") with
+  | [lo, hi, kw, st] =>
+    let lo ← lo.getNat?
+    let hi ← (match hi with | .null => pure none | h => do return some (← h.getNat?))
+    let kw ← kw.getBool?
+    return .sig lo hi kw (← storeOfJson st)
+  | _ => throw s!"bad Shape {j.compress}"
 
 structure UserCls where
   name : String
-  base : String
+  bases : List String
   shape : Option Shape
   falsy : Bool
+  copyVia : CopyKind
+  sealed : Bool
+  frozen : Bool
+
+def optBool (j : Json) (k : String) : Bool := (j.getObjValAs? Bool k).toOption.getD false
 
 def userClsOfJson (j : Json) : Except String UserCls := do
   let sh ← (match j.getObjVal? "shape" with
     | .ok .null => pure none
     | .ok s => do return some (← shapeOfJson s)
     | .error _ => pure none)
-  return { name := ← j.getObjValAs? String "name", base := ← j.getObjValAs? String "base",
-           shape := sh, falsy := (j.getObjValAs? Bool "falsy").toOption.getD false }
+  let bases ← (match j.getObjVal? "bases" with
+    | .ok b => strsOfJson b
+    | .error _ => do return [← j.getObjValAs? String "base"])
+  let ck ← (match j.getObjValAs? String "copy" with
+    | .ok "args" | .error _ => pure CopyKind.args
+    | .ok "init" => pure .init
+    | .ok "self" => pure .self_
+    | .ok "foreign" => pure .foreign
+    | .ok k => throw s!"bad copy kind {k}")
+  return { name := ← j.getObjValAs? String "name", bases := bases, shape := sh, falsy := optBool j "falsy",
+           copyVia := ck, sealed := optBool j "sealed", frozen := optBool j "frozen" }
 
-/-- constructor of a class that exists in /repo: the two C constructors that rewrite their
+/-- constructor of a class that exists in /repo: the C constructors that rewrite / validate their
     arguments, glom's own classes by their extracted rows, everything else stores all -/
 def builtinShape (c : String) : Shape :=
   let m := tableMro Generated.excTable c
   if m.contains "OSError" then .oserror
   else if c == "UnicodeDecodeError" then .unicodeDecode
+  else if m.contains "ExceptionGroup" then .egroup false
+  else if m.contains "BaseExceptionGroup" then .egroup true
   else (internalShape Generated.excCtor c).getD (.sig 0 none false .all)
 
-/-- (MRO, constructor shape, falsy) of a class by name -/
-def resolve (us : List UserCls) : Nat → String → List String × Shape × Bool
-  | 0, c => (tableMro Generated.excTable c, builtinShape c, false)
-  | fuel + 1, c =>
-    match us.find? (·.name == c) with
-    | some u =>
-      let (bm, bs, bf) := resolve us fuel u.base
-      (u.name :: bm, u.shape.getD bs, u.falsy || bf)
-    | none => (tableMro Generated.excTable c, builtinShape c, false)
+/-- MROs of the user classes, in the order they are defined, by the modelled C3 linearisation
+    (`none`: Python refuses to create the class) -/
+def userMros (us : List UserCls) : Option (List (String × List String)) :=
+  us.foldlM (fun (acc : List (String × List String)) u =>
+    let mroOf := fun (b : String) => match acc.find? (·.1 == b) with
+      | some (_, m) => m
+      | none => tableMro Generated.excTable b
+    (linearize u.name (u.bases.map mroOf)).map (fun m => acc ++ [(u.name, m)])) []
 
-def classInfo (us : List UserCls) (c : String) : ClassInfo × Shape :=
-  let (m, sh, f) := resolve us (us.length + 1) c
-  (mkClass c (m.drop 1) sh f, sh)
+/-- the class named `c`: MRO, the constructor found along the MRO (first user class with an `__init__`
+    of its own, or the first class of /repo), `__bool__`, `__copy__`/`__reduce__`, `__setattr__` likewise -/
+def classInfo (us : List UserCls) (mros : List (String × List String)) (c : String) : ClassInfo × Shape :=
+  let m := match mros.find? (·.1 == c) with
+    | some (_, m) => m
+    | none => tableMro Generated.excTable c
+  let userOf := fun (n : String) => us.find? (·.name == n)
+  let sh : Shape :=
+    let rec go : List String → Shape
+      | [] => .sig 0 none false .all
+      | n :: r => match userOf n with
+        | some u => (match u.shape with | some s => s | none => go r)
+        | none => builtinShape n
+    match go m with
+    | .egroup _ => .egroup (!m.contains "Exception")   -- an Exception subclass refuses members that are not Exceptions
+    | sh => sh
+  let users := m.filterMap userOf
+  let falsy := users.any (·.falsy)
+  let ck := match users.find? (fun u => u.copyVia != .args) with
+    | some u => u.copyVia
+    | none => if m.contains "AttributeError" then .argsState else .args
+  let sealed := match userOf c with | some u => u.sealed | none => false
+  (mkClass c (m.drop 1) sh falsy ck sealed (users.any (·.frozen)), sh)
 
-partial def spOfJson (j : Json) : Except String Sp :=
-  match j with
-  | .str "ok" => .ok .ok
-  | .str "fault" => .ok .fault
-  | .str "badPath" => .ok .badPath
-  | .str "badMatch" => .ok .badMatch
-  | _ => do
-    if let .ok xs := j.getObjVal? "tup" then return .tup (← (← arr xs).mapM spOfJson)
-    else if let .ok xs := j.getObjVal? "dct" then return .dct (← (← arr xs).mapM spOfJson)
-    else if let .ok x := j.getObjVal? "lst" then return .lst (← spOfJson x)
-    else if let .ok x := j.getObjVal? "frame" then return .frame (← spOfJson x)
-    else if let .ok x := j.getObjVal? "first" then return .first (← spOfJson x)
-    else if let .ok xs := j.getObjVal? "coal" then
-      let skip ← (match j.getObjVal? "skip" with
-        | .ok .null => pure none
-        | .ok s => do return some (← strsOfJson s)
-        | .error _ => pure none)
-      return .coal (← (← arr xs).mapM spOfJson) skip ((j.getObjValAs? Bool "dflt").toOption.getD false)
-    else throw s!"bad Sp {j.compress}"
-
-def settingsOfJson (j : Json) : Except String Settings := do
+def settingsOfJson (j : Json) (dfltId : Nat) : Except String Settings := do
   let d ← j.getObjValAs? Bool "default"
   let skip ← (match j.getObjVal? "skip" with
     | .ok .null => pure none
@@ -140,12 +161,61 @@ def settingsOfJson (j : Json) : Except String Settings := do
   let dbg := match j.getObjVal? "debug" with
     | .ok (.bool b) => some b
     | _ => none
-  return { default := if d then some 1 else none, skipExc := skip, debug := dbg }
+  return { default := if d then some dfltId else none, skipExc := skip, debug := dbg }
 
-/-- the implementation's observation, relative to the exception object that `kind` says
-    reached `glom()`'s handler: the prepared object (`…Inj` flags) or the object the recording
-    frame saw (`…Rec` flags, meaningful when it is an instance of the expected internal class) -/
-def obsOfJson (j : Json) (kind : Outc) (recCls : Option String) : Except String Obs := do
+def faultOfKind (k : String) : Except String Sp :=
+  if ["fn", "call", "invoke", "tcall", "factory"].contains k then .ok .fault
+  else if k == "skipfunc" then .ok (.coal [.fault] none false)   -- `Coalesce(ok, skip=f)`: `f` runs inside Coalesce's try
+  else if k == "next" then .ok (.first .fault)
+  else if k == "iter" || k == "reg_iter" then .ok (.faultConv .iter)
+  else if k == "getitem" then .ok (.faultConv .getitem)
+  else if k == "getattr" then .ok (.faultConv .getattr)
+  else if k == "path" || k == "reg_get" then .ok (.faultConv .path)
+  else .error s!"bad fault kind {k}"
+
+partial def spOfJson (j : Json) : Except String Sp :=
+  match j with
+  | .str "ok" => .ok .ok
+  | .str "fault" => .ok .fault
+  | .str "badPath" => .ok .badPath
+  | .str "badMatch" => .ok .badMatch
+  | _ => do
+    if let .ok k := j.getObjValAs? String "fault" then faultOfKind k
+    else if let .ok xs := j.getObjVal? "tup" then return .tup (← (← arr xs).mapM spOfJson)
+    else if let .ok xs := j.getObjVal? "dct" then return .dct (← (← arr xs).mapM spOfJson)
+    else if let .ok x := j.getObjVal? "lst" then return .lst (← spOfJson x)
+    else if let .ok x := j.getObjVal? "frame" then return .frame (← spOfJson x)
+    else if let .ok x := j.getObjVal? "first" then return .first (← spOfJson x)
+    else if let .ok x := j.getObjVal? "nest" then
+      return .nest (← spOfJson x) (← settingsOfJson (← j.getObjVal? "settings") 2)
+    else if let .ok xs := j.getObjVal? "coal" then
+      let skip ← (match j.getObjVal? "skip" with
+        | .ok .null => pure none
+        | .ok s => do return some (← strsOfJson s)
+        | .error _ => pure none)
+      return .coal (← (← arr xs).mapM spOfJson) skip (optBool j "dflt")
+    else throw s!"bad Sp {j.compress}"
+
+structure Rel where
+  same : Bool
+  inst : Bool
+  cause : Bool
+  context : Bool
+  reach : Bool
+
+def relOfJson (j : Json) : Rel :=
+  { same := optBool j "same", inst := optBool j "inst", cause := optBool j "cause",
+    context := optBool j "context", reach := optBool j "reach" }
+
+structure RecOrigin where
+  isInj : Bool
+  mro : List String
+  args : Args
+
+/-- the implementation's observation, relative to the exception object `origin` that is expected to
+    have reached `glom()`'s handler: the prepared object (flags `inj`), or — when the recording
+    frame saw an object of the expected class — that object (flags `rec`) -/
+def obsOfJson (j : Json) (origin : Option ExcObj) (rec : Option RecOrigin) : Except String Obs := do
   if let .ok k := j.getObjValAs? String "returned" then
     match k with
     | "value" => return .returned .value
@@ -155,19 +225,26 @@ def obsOfJson (j : Json) (kind : Outc) (recCls : Option String) : Except String 
   else
     let r ← j.getObjVal? "raised"
     let mro ← strsOfJson (← r.getObjVal? "mro")
-    let flag := fun (k : String) => (r.getObjValAs? Bool k).toOption.getD false
-    let (same, inst) := match kind with
-      | .exc (.internal c) => if recCls == some c then (flag "sameRec", flag "instRec") else (false, mro.contains c)
-      | _ => (flag "sameInj", flag "instInj")
+    let rel : Rel := match origin with
+      | none => ⟨false, false, false, false, false⟩
+      | some e =>
+        if e.id == 0 then relOfJson ((r.getObjVal? "inj").toOption.getD .null)
+        else match rec, (r.getObjVal? "rec").toOption with
+          | some ro, some rj =>
+            if !ro.isInj && ro.mro == e.cls.mro then relOfJson rj
+            else ⟨false, mro.contains e.cls.name, false, false, false⟩
+          | _, _ => ⟨false, mro.contains e.cls.name, false, false, false⟩
     return .raised { mro := mro, args := ← argsOfJson (← r.getObjVal? "args"),
-                     same := same, instOrig := inst, instGlom := ← r.getObjValAs? Bool "instGlom" }
+                     same := rel.same, instOrig := rel.inst, instGlom := ← r.getObjValAs? Bool "instGlom",
+                     causeKept := rel.cause, contextKept := rel.context, reachesOrig := rel.reach }
 
 def obsToJson : Obs → Json
   | .returned .value => Json.mkObj [("returned", "value")]
   | .returned .defaultObj => Json.mkObj [("returned", "default")]
   | .returned .noneObj => Json.mkObj [("returned", "none")]
   | .raised r => Json.mkObj [("raised", Json.mkObj [("mro", toJson r.mro), ("args", argsToJson r.args),
-      ("same", r.same), ("instOrig", r.instOrig), ("instGlom", r.instGlom)])]
+      ("same", r.same), ("instOrig", r.instOrig), ("instGlom", r.instGlom), ("causeKept", r.causeKept),
+      ("contextKept", r.contextKept), ("reachesOrig", r.reachesOrig)])]
 
 /-- which branch of the model decided the outcome (for the histogram) -/
 def branchOf (F : Facts) (s : Settings) (origin : Option ExcObj) (r : Res) : String :=
@@ -180,34 +257,80 @@ def branchOf (F : Facts) (s : Settings) (origin : Option ExcObj) (r : Res) : Str
     if !matchesAny e F.outerCatch then "BaseException-only→untouched"
     else if effDebug F s then "debug→original"
     else if isInst e "GlomError" then
-      match pyCopy F e with
-      | none => "glomerror:copy-raises→original"
-      | some c => if c.args != e.args then "glomerror:copy-args-differ→original" else
-          (if usesTmeCopy e.cls then "glomerror:__copy__" else "glomerror:copied")
+      if e.cls.frozen then "glomerror:frozen→setattr-raises" else
+      match e.cls.copyVia, pyCopy F e with
+      | .self_, _ => "glomerror:__copy__-self"
+      | .foreign, _ => "glomerror:__copy__-foreign"
+      | _, none => "glomerror:copy-raises→original"
+      | k, some c => if k == .argsState then "glomerror:copied(args-in-state)" else if c.args != e.args then "glomerror:copy-args-differ→original" else
+          (if usesTmeCopy e.cls then "glomerror:__copy__" else if k == .init then "glomerror:__reduce__" else "glomerror:copied")
     else
-      match (wrapClass e.cls).ctor e.args with
-      | none => "foreign:rebuild-raises→original"
-      | some a => if a != e.args then "foreign:rebuild-args-differ→original" else "foreign:wrapped"
+      match wrapClass e.cls with
+      | none => "foreign:type()-raises"
+      | some wc =>
+        match wc.ctor e.args with
+        | none => "foreign:rebuild-raises→original"
+        | some a => if a != e.args then "foreign:rebuild-args-differ→original"
+                    else if wc.frozen then "foreign:frozen→original" else "foreign:wrapped"
+
+def internalId (c : String) : Nat :=
+  if c == "PathAccessError" then 1000 else if c == "TypeMatchError" then 1100
+  else if c == "CoalesceError" then 1200 else 1300
+
+def sameObj (a b : Outc) : Bool :=
+  match a, b with
+  | .val, .val => true
+  | .exc x, .exc y => x.id == y.id && x.cls.mro == y.cls.mro && x.args == y.args
+  | _, _ => false
+
+/-- which new input classes a case exercises (for the histogram) -/
+partial def featOf (j : Json) : List String :=
+  match j with
+  | .str _ => []
+  | _ =>
+    let kids : List Json := (["tup", "dct", "coal"].filterMap (fun k => (j.getObjVal? k).toOption)).flatMap
+        (fun a => (arr a).toOption.getD []) ++
+      (["lst", "frame", "first", "nest"].filterMap (fun k => (j.getObjVal? k).toOption))
+    (if (j.getObjVal? "nest").toOption.isSome then ["nest"] else []) ++
+    (match j.getObjValAs? String "fault" with
+      | .ok k => if k == "fn" then [] else if k == "next" then ["next"]
+                 else if ["call", "invoke", "tcall", "factory", "skipfunc"].contains k then ["called"] else ["conv"]
+      | .error _ => []) ++ kids.flatMap featOf
 
 def run (j : Json) : Except String Json := do
   let us ← (← arr (← j.getObjVal? "classes")).mapM userClsOfJson
   let ej ← j.getObjVal? "exc"
   let cname ← ej.getObjValAs? String "cls"
-  let init ← argsOfJson (← ej.getObjVal? "init")
-  let kw := (ej.getObjValAs? Bool "kw").toOption.getD false
+  let raiseClass := optBool ej "raise_class"
+  let init0 ← argsOfJson (← ej.getObjVal? "init")
+  let init := if raiseClass then [] else init0
+  let kw := !raiseClass && optBool ej "kw"
   let setArgs ← (match ej.getObjVal? "set_args" with
     | .ok .null => pure none
     | .ok a => do return some (← argsOfJson a)
     | .error _ => pure none)
-  let spec0 ← spOfJson (← j.getObjVal? "spec")
-  let recorder := (j.getObjValAs? Bool "recorder").toOption.getD false
+  let specJ ← j.getObjVal? "spec"
+  let spec0 ← spOfJson specJ
+  let recorder := optBool j "recorder"
   let spec := if recorder then Sp.frame spec0 else spec0
-  let s ← settingsOfJson (← j.getObjVal? "settings")
+  let s ← settingsOfJson (← j.getObjVal? "settings") 1
   let impl ← j.getObjVal? "impl"
   let F := genFacts
-  let (ci, sh) := classInfo us cname
+  -- the classes
+  let implClassError := optBool impl "class_error"
+  let some mros := userMros us
+    | (if implClassError then
+        return Json.mkObj [("skip", true), ("why", "Python cannot create the class hierarchy (the C3 model agrees)")]
+       else return Json.mkObj [("agree", false), ("holds", true), ("branch", "ctor-disagreement"),
+        ("model", Json.mkObj [("mro", "inconsistent")]), ("why", "the C3 model finds no MRO, Python created the classes")])
+  if implClassError then
+    return Json.mkObj [("agree", false), ("holds", true), ("branch", "ctor-disagreement"),
+      ("model", Json.mkObj [("mros", toJson (mros.map (·.2)))]), ("why", "the C3 model finds an MRO, Python refuses the classes")]
+  let (ci, sh) := classInfo us mros cname
   -- the prepared exception object
   let built := sh.construct init kw
+  if optBool impl "repr_error" then
+    return Json.mkObj [("skip", true), ("why", "repr() of the prepared exception raises: outside the modelled domain")]
   if let .ok true := impl.getObjValAs? Bool "ctor_error" then
     match built with
     | none => return Json.mkObj [("skip", true), ("why", "the prepared exception cannot be constructed (model agrees)")]
@@ -216,7 +339,9 @@ def run (j : Json) : Except String Json := do
   let some a0 := built
     | return Json.mkObj [("agree", false), ("holds", true), ("branch", "ctor-disagreement"),
         ("model", Json.mkObj [("ctor", "raises")]), ("why", "model says the constructor raises, implementation built it")]
-  let e0 : ExcObj := { id := 0, cls := ci, args := setArgs.getD a0 }
+  let e0 : ExcObj := { id := 0, cls := ci, args := setArgs.getD a0, init := init,
+                       cause := if optBool ej "cause" then some 7 else none,
+                       context := if optBool ej "context" then some 8 else none }
   -- validation of the class model against the real object
   let io ← impl.getObjVal? "orig"
   let implOrigMro ← strsOfJson (← io.getObjVal? "mro")
@@ -228,63 +353,67 @@ def run (j : Json) : Except String Json := do
   let implFalsy ← io.getObjValAs? Bool "falsy"
   let classAgree := implOrigMro == ci.mro && implOrigArgs == e0.args &&
     implRebuild == ci.ctor e0.args && implFalsy == ci.falsy
-  -- where the fault originates
-  let E : EvalEnv := { F := F, injMro := ci.mro }
-  let outc := eval E spec
+  -- what the recording frame saw
   let implOrigin ← impl.getObjVal? "origin"
-  let implInternal : Option (String × Args) ←
-    (match implOrigin.getObjValAs? String "internal" with
-     | .ok c => do return some (c, ← argsOfJson (← implOrigin.getObjVal? "args"))
-     | .error _ => pure none)
-  let mkInternal := fun (c : String) (a : Args) =>
-    ({ id := 10, cls := repoClass c (builtinShape c), args := a } : ExcObj)
-  -- origin for the model: predicted by `eval`; an internal error takes its args from the recording
-  let modelOrigin : Option ExcObj := match outc with
-    | .val => none
-    | .exc .injected => some e0
-    | .exc (.internal c) => some (mkInternal c (match implInternal with | some (_, a) => a | none => []))
-  -- origin for the checker: the REFERENCE evaluation (documented `Coalesce(skip_exc=GlomError)`
-  -- default, independent of the extracted facts) says which exception object must reach the handler
-  let refF : Facts := { F with coalesceSkipDefault := ["GlomError"], frameCatch := ["Exception"] }
-  let refOutc := eval { F := refF, injMro := ci.mro } spec
-  let recCls := implInternal.map (·.1)
-  let checkOrigin : Option ExcObj := match refOutc with
-    | .val => none
-    | .exc .injected => some e0
-    | .exc (.internal c) => some (mkInternal c (match implInternal with
-        | some (c', a) => if c == c' then a else []
-        | none => []))
-  let originAgree : Bool := match implOrigin, outc with
-    | .null, .val => true
-    | .str _, .val => true
-    | .str _, .exc .injected => true
-    | .str _, .exc (.internal _) => false
-    | _, .exc .injected => implInternal.isNone && implOrigin != .null
-    | _, .exc (.internal c) => (match implInternal with | some (c', _) => c == c' | none => false)
+  let recO : Option RecOrigin ← (match implOrigin.getObjVal? "mro" with
+    | .ok m => do return some { isInj := optBool implOrigin "isInj", mro := ← strsOfJson m,
+                                args := ← argsOfJson (← implOrigin.getObjVal? "args") }
+    | .error _ => pure none)
+  -- an error object glom creates: its args are not modelled, they are taken from the recording
+  let internal := fun (c : String) =>
+    ({ id := internalId c, cls := (classInfo us mros c).1,
+       args := (match recO with | some ro => if !ro.isInj && ro.mro.contains c then ro.args else [] | none => []),
+       -- raised inside an `except` block (`raise TypeError('failed to iterate …')`): Python chains the exception
+       -- being handled as `__context__` (PathAccessErrors are raised after their `except` block)
+       context := if c == F.iterRaises then some 9 else none } : ExcObj)
+  -- where the fault originates
+  let E : EvalEnv := { F := F, inj := e0, internal := internal }
+  let outc := eval E spec
+  -- origin for the checker: the REFERENCE evaluation (documented facts, independent of what was
+  -- extracted) says which exception object must reach the handler
+  let refF := docFacts F.wrapTypeInTry F.attrGuarded
+  let refOutc := eval { E with F := refF } spec
+  let originOf := fun (o : Outc) => match o with | .val => none | .exc e => some e
+  let modelOrigin := originOf outc
+  let checkOrigin := originOf refOutc
+  let originAgree : Bool := match implOrigin, modelOrigin with
+    | .null, none => true
+    | .str _, none => true
+    | .str _, some e => e.id == 0
+    | _, some e => (match recO with
+        | some ro => ro.isInj == (e.id == 0) && ro.mro == e.cls.mro && ro.args == e.args
+        | none => false)
     | _, _ => false
-  if let (.str _, .exc (.internal _)) := (implOrigin, refOutc) then
-    return Json.mkObj [("skip", true), ("why", "internal error without a recording frame")]
-  let body : Body := match modelOrigin with | some e => .exc e | none => .val
-  let res := glomTop F s body
+  if let (.str _, some e) := (implOrigin, checkOrigin) then
+    if e.id != 0 then
+      return Json.mkObj [("skip", true), ("why", "an object other than the prepared one reaches the handler, without a recording frame")]
+  let res := glomTop F s (toBody outc)
   let modelObs := observe modelOrigin res
   let implJ ← impl.getObjVal? "obs"
-  let implObs ← obsOfJson implJ outc recCls
-  let implObsRef ← obsOfJson implJ refOutc recCls
+  let implObs ← obsOfJson implJ modelOrigin recO
+  let implObsRef ← obsOfJson implJ checkOrigin recO
   let holds := checkC04 s checkOrigin implObsRef
   let modelHolds := checkC04 s modelOrigin modelObs
-  let agree := classAgree && originAgree && modelObs == implObs && outc == refOutc
-  let originTag := match outc with
-    | .val => "" | .exc .injected => "injected/" | .exc (.internal c) => s!"{c}/"
+  let agree := classAgree && originAgree && modelObs == implObs && sameObj outc refOutc
+  let originTag := match modelOrigin with
+    | none => ""
+    | some e => if e.id == 0 then "injected/" else s!"{e.cls.name}/"
+  let feats := (featOf specJ).eraseDups
+  let featTag := String.join (feats.map (fun f => s!"+{f}")) ++
+    (if raiseClass then "+raise-class" else "") ++ (if us.any (·.bases.length > 1) then "+multi-base" else "")
   return Json.mkObj [("agree", agree), ("holds", holds), ("model_holds", modelHolds),
     ("wf", WF F),
     ("model", Json.mkObj [("obs", obsToJson modelObs), ("orig_mro", toJson ci.mro),
       ("orig_args", argsToJson e0.args), ("rebuild", match ci.ctor e0.args with | some a => argsToJson a | none => .null),
       ("falsy", ci.falsy),
-      ("origin", match outc with | .val => .null | .exc .injected => "injected" | .exc (.internal c) => c)]),
-    ("branch", (originTag ++ branchOf F s modelOrigin res : String)),
+      ("origin", match modelOrigin with
+        | none => .null
+        | some e => Json.mkObj [("isInj", e.id == 0), ("mro", toJson e.cls.mro), ("args", argsToJson e.args)])]),
+    ("branch", (originTag ++ branchOf F s modelOrigin res ++ featTag : String)),
     ("why", (if agree then "" else
       (if !classAgree then "class model (mro/args/rebuild/falsy) differs; " else "") ++
       (if !originAgree then "origin differs; " else "") ++
+      (if !sameObj outc refOutc then "extracted facts change the origin; " else "") ++
       (if modelObs != implObs then "observation differs" else "") : String))]
 
 end Glom.C04.Driver
